@@ -140,7 +140,7 @@ def run_job(ws, unit, job, tier):
     d = os.path.join(ws.dir, re.sub(r'\W+', '_', job['name'])); os.makedirs(d, exist_ok=True)
     a = os.path.join(d, 'a.gb'); b = os.path.join(d, 'b.gb')
     rec = {'job': job['name'], 'unit': unit['name'], 'entry': job['entry'], 'backend': None, 'solver_s': 0.0, 'obligations': [], 'status': None}
-    defs = ['-D' + x for x in job.get('defines', [])]
+    defs = ['-D' + x for x in job.get('defines', [])] + ['-DSTUB_' + x for x in unit.get('stubs', [])]
     rc, out, err, t = sh(['goto-cc', '--function', job['entry']] + defs + [u['path'], '-o', a], timeout=300)
     if rc != 0:
         rec['status'] = 'ERROR'; rec['detail'] = 'goto-cc: ' + (err or out)[-3000:]; return rec
@@ -196,7 +196,17 @@ def run_job(ws, unit, job, tier):
             rec['status'] = 'TIMEOUT'; rec['detail'] = err; return rec
         results, status, msgs = parse_cbmc_json(out)
     if results is None:
-        rec['status'] = 'ERROR'; rec['detail'] = 'cbmc: %s %s %s' % (status, msgs, (err or '')[-1500:]); return rec
+        # last resort: plain-text output (the JSON UI itself can crash CBMC 6.11)
+        cb3 = [c for c in cb if c not in ('--trace', '--json-ui')]
+        rc, out, err, t3 = sh(cb3, timeout=job.get('timeout', 600))
+        if rc == -9:
+            rec['status'] = 'TIMEOUT'; rec['detail'] = err; return rec
+        results = []
+        for m in re.finditer(r'^\[([^\]]+)\] (?:line (\d+) )?(.*): (SUCCESS|FAILURE|UNKNOWN|ERROR)$', out, re.M):
+            results.append({'property': m.group(1), 'description': m.group(3), 'status': m.group(4), 'sourceLocation': {'line': m.group(2), 'function': m.group(1).split('.')[0]}})
+        rec['trace_unavailable'] = True
+        if not results or ('VERIFICATION SUCCESSFUL' not in out and 'VERIFICATION FAILED' not in out):
+            rec['status'] = 'ERROR'; rec['detail'] = 'cbmc: %s %s %s' % (status, msgs, (err or out or '')[-1500:]); return rec
     failed = []
     for r in results:
         desc = r.get('description', ''); name = r.get('property', '')
